@@ -224,7 +224,9 @@ func goCode(r *rand.Rand, cfg Cfg, s CodeSite, usesState bool) string {
 
 // SupportFile returns the Go source of the helper file that compilable code
 // blocks call into, for package pkg. inputs are embedded: PvRun parses each of
-// them with the generated Parse and prints one deterministic line per input.
+// them with the generated Parse (under an expression budget of 200000) and
+// prints one deterministic line per input: "in=.. ok val=..", "in=.. fail
+// val=.. err=.." or "in=.. budget".
 func SupportFile(pkg string, inputs []string) string {
 	var b strings.Builder
 	b.WriteString("// Code generated by pve2e; DO NOT EDIT.\n\npackage " + pkg + "\n\n")
@@ -311,7 +313,7 @@ func pvInt(v any) int {
 }
 
 `)
-	b.WriteString("var pvInputs = []string{\n")
+	b.WriteString("const pvBudget = 200000\n\nvar pvInputs = []string{\n")
 	for _, in := range inputs {
 		b.WriteString("\t" + strconv.Quote(in) + ",\n")
 	}
@@ -320,7 +322,13 @@ func pvInt(v any) int {
 // PvRun parses every embedded input and prints one line per input.
 func PvRun(w io.Writer) {
 	for _, in := range pvInputs {
-		v, err := Parse("", []byte(in))
+		// the expression budget turns exponential backtracking into a
+		// quick, recognisable outcome
+		v, err := Parse("", []byte(in), MaxExpressions(pvBudget))
+		if err != nil && strings.Contains(err.Error(), "max number of expressions parsed") {
+			fmt.Fprintf(w, "in=%q budget\n", in)
+			continue
+		}
 		if err != nil {
 			fmt.Fprintf(w, "in=%q fail val=%s err=%q\n", in, pvShow(v), err.Error())
 			continue
